@@ -9,6 +9,7 @@
 #include <errno.h>
 #include <stdio.h>
 #include <stdlib.h>
+#include <string.h>
 #include <unistd.h>
 #include <sys/uio.h>
 
@@ -17,8 +18,12 @@ static int target_fd = -2;
 static long fail_k = -1;
 static int err_no = EPIPE;
 
+extern char *program_invocation_short_name;
+
 static void init(void) {
     if (target_fd != -2) return;
+    /* only the delta process itself is subject to faults, not the children it spawns */
+    if (strcmp(program_invocation_short_name, "delta") != 0) { target_fd = -1; fail_k = 0; return; }
     const char *s = getenv("VERIF_FAULT_FD");
     target_fd = s ? atoi(s) : 1;
     s = getenv("VERIF_FAULT_K");
@@ -29,7 +34,7 @@ static void init(void) {
 
 static void report(void) {
     const char *f = getenv("VERIF_FAULT_COUNT_FILE");
-    if (!f) return;
+    if (!f || target_fd < 0) return;
     FILE *fp = fopen(f, "w");
     if (fp) { fprintf(fp, "%ld\n", count); fclose(fp); }
 }
